@@ -470,6 +470,14 @@ func (f *flow) callResult(call *ssa.Call, idx int, depth int, seen map[ssa.Value
 	callee := com.StaticCallee()
 	if callee == nil {
 		if b, ok := com.Value.(*ssa.Builtin); ok {
+			if b.Name() == "append" {
+				// what was appended to, and what was appended
+				var out []leaf
+				for _, a := range com.Args {
+					out = append(out, f.cl(a, depth+1, seen)...)
+				}
+				return out
+			}
 			return []leaf{{Kind: "SAFE", Info: "builtin " + b.Name()}}
 		}
 		if prm, ok := com.Value.(*ssa.Parameter); ok && len(com.Args) >= 1 {
